@@ -13,9 +13,10 @@ cd $wt
 export CARGO_NET_OFFLINE=true
 git stash -q -u 2>/dev/null; git stash drop -q 2>/dev/null; git checkout -q -- . ; git clean -qfd -e target
 git apply $out/patch.diff || { echo "PATCH DOES NOT APPLY"; exit 2; }
-cp $out/seed_demo.rs tests/seed_demo.rs
+rm -f tests/seed_demo.rs      # the suite is run unedited (a demo that needs --features verif-hooks would not even compile here)
 b=$(cargo build --offline 2>&1 | tail -1)
-t=$(cargo test --workspace --no-fail-fast --offline -- --skip seed 2>&1 | grep -E "^test result" | tr '\n' ';')
+t=$(cargo test --workspace --no-fail-fast --offline 2>&1 | grep -E "^test result" | tr '\n' ';')
+cp $out/seed_demo.rs tests/seed_demo.rs
 d1=$(cargo test --offline $feat --test seed_demo 2>&1 | grep -E "^test result" | tail -1)
 git apply -R $out/patch.diff
 d0=$(cargo test --offline $feat --test seed_demo 2>&1 | grep -E "^test result" | tail -1)
